@@ -470,6 +470,12 @@ def gen_c06(rng, sid0, thorough=False):
             c = flip_bits(f, [rng.randrange(nbits)])
             add(f"{name}-1bit-bytes", c, chunked=[[x] for x in c])
             add(f"{name}-1bit-rand", c, chunked=chunk_random(rng, c, maxchunk=9))
+        # the two CRC bytes exchanged (a burst inside the last 16 bits; a 2-bit error when they differ in one bit)
+        add(f"{name}-crc-bytes-swapped", f[:-2] + [f[-1], f[-2]])
+        # the good frame cut in two at every offset (short frames) -- the length is derived identically
+        if short:
+            for cut in range(1, len(f)):
+                add(f"{name}-good-split@{cut}", f, chunked=[f[:cut], f[cut:]])
         # the good frame, several chunkings (length derivation is chunking independent)
         add(f"{name}-good", f)
         add(f"{name}-good-bytes", f, chunked=[[x] for x in f])
